@@ -50,6 +50,9 @@ pub fn mul_redc<const N: usize>(a: [u64; N], b: [u64; N], modulus: [u64; N], inv
         let (value, next_carry) = carrying_add(carry_1, carry_2, carry);
         result[N - 1] = value;
         if modulus[N - 1] >= 0x7fff_ffff_ffff_ffff {
+            if next_carry {
+                verif_hit!(15);
+            }
             carry = next_carry;
         } else {
             debug_assert!(!next_carry);
@@ -106,6 +109,9 @@ pub fn square_redc<const N: usize>(a: [u64; N], modulus: [u64; N], inv: u64) -> 
 
             // Note carry_outer can be {0, 1, 2}.
             carry_outer = (wide >> 64) as u64;
+            if carry_outer > 0 {
+                verif_hit!(if carry_outer == 1 { 16 } else { 17 });
+            }
             debug_assert!(carry_outer <= 2);
         } else {
             // `carry_outer` and `carry_hi` are always zero.
@@ -129,6 +135,13 @@ fn reduce1_carry<const N: usize>(value: [u64; N], modulus: [u64; N], carry: bool
     let (reduced, borrow) = sub(value, modulus);
     // TODO: Ideally this turns into a cmov, which makes the whole mul_redc constant
     // time.
+    verif_hit!(if carry {
+        18
+    } else if !borrow {
+        19
+    } else {
+        20
+    });
     if carry | !borrow {
         reduced
     } else {
